@@ -285,7 +285,7 @@ MUTANTS = [
     Mutant("serve-invalid-target-zero", "director.py", in_function("serve", replace_once("return ServeResult(returncode=ReturnCode.FAILED, usage_report=\"\", usage_summary=\"\")", "return ServeResult(returncode=ReturnCode(0), usage_report=\"\", usage_summary=\"\")")), ("R-C19-1",)),
     Mutant("default-zero", "builder.py", replace_once("returncode: ReturnCode = attrs.field(init=False, default=ReturnCode.PENDING)", "returncode: ReturnCode = attrs.field(init=False, default=ReturnCode(0))"), ("R-C19-1",)),
     Mutant("pending-before-drain", "finalize.py", in_function("report_unbuilt", lambda s: s.replace("    returncode |= await _report_pending_steps(workflow, reporter)\n", "", 1).replace("    if scheduler.draining:\n", "    returncode |= await _report_pending_steps(workflow, reporter)\n    if scheduler.draining:\n", 1) if "    if scheduler.draining:\n" in s else None), ("R-C19-2",)),
-    Mutant("failed-counts-detached", "workflow.py", in_function("Workflow.steps", replace_once('            "WHERE state = ? AND NOT detached"', '            "WHERE state = ?"')), ("R-C19-2",)),
+    Mutant("failed-counts-detached", "finalize.py", in_function("report_unbuilt", replace_once("workflow.steps(StepState.FAILED)", "workflow.steps(StepState.FAILED, include_detached=True)")), ("R-C19-2",)),
     Mutant("glob-check-always", "finalize.py", in_function("report_unbuilt", replace_once("    if returncode == ReturnCode(0):\n        returncode |= await _report_glob_violations(workflow, reporter)\n", "    returncode |= await _report_glob_violations(workflow, reporter)\n")), ("R-C19-2",)),
     Mutant("no-failed-flag", "finalize.py", in_function("report_unbuilt", replace_once("        returncode |= ReturnCode.FAILED\n", "        returncode |= ReturnCode.WARNING\n")), ("R-C19-2",)),
     Mutant("blocker-no-pk", "pending.py", replace_once("    CREATE TEMP TABLE pend_blocker (\n        dst_step INTEGER PRIMARY KEY,", "    CREATE TEMP TABLE pend_blocker (\n        dst_step INTEGER NOT NULL,"), ("R-C19-3",)),
